@@ -4,6 +4,16 @@ import json
 import os
 
 
+import re as _re
+
+
+def nrm(n):
+    """canonical spelling of printed paths: no_std builds print core::/alloc:: where std builds print std::"""
+    if n is None:
+        return None
+    return _re.sub(r"\b(core|alloc)::", "std::", n)
+
+
 class Fn:
     __slots__ = ("d", "path", "name", "crate", "kind", "argc", "vis", "loc", "exp", "impl_exp", "self_ty",
                  "trait", "generics", "locals", "vars", "blocks", "tc", "_cfg")
@@ -12,7 +22,7 @@ class Fn:
         self.d = d
         self.path = d["path"]
         self.crate = crate
-        n = d["name"]
+        n = nrm(d["name"])
         self.name = crate + "::" + n
         self.kind = d["kind"]
         self.argc = d["argc"]
@@ -20,8 +30,8 @@ class Fn:
         self.loc = d["loc"]
         self.exp = d["exp"]
         self.impl_exp = d["impl_exp"]
-        self.self_ty = d["self_ty"]
-        self.trait = d["trait"]
+        self.self_ty = nrm(d["self_ty"])
+        self.trait = nrm(d["trait"])
         self.generics = d["generics"]
         self.locals = d["locals"]
         self.vars = d["vars"]
@@ -79,6 +89,8 @@ class Facts:
                         self.adts[crate + "::" + d["name"]] = d
                     elif k == "impl":
                         d["crate"] = crate
+                        d["trait"] = nrm(d["trait"])
+                        d["self_ty"] = nrm(d["self_ty"])
                         self.impls.append(d)
         # trait-method dispatch table: (method name, self type string) -> raw path
         self.dispatch = {}
